@@ -199,10 +199,13 @@ var (
 	bodyRec     = body{name: "mutrec", src: `ra = function(){ rb(); }; rb = function(){ ra(); }; ra();`, limit: recLimit, throws: excOverflow}
 	bodyThrowE  = body{name: "throw_error", src: `g1 = 1; tick(1); throw new RangeError("boom"); g2 = 2;`, ticks: 1, throws: excRange}
 	bodyEvalBad = body{name: "eval_parse_error", src: `g1 = 1; tick(1); eval("("); g2 = 2;`, ticks: 1, throws: excEvalParse}
+	// the thrown value's toString runs script code while the API entry point renders the
+	// uncaught exception (or while a catch clause of a wrapper stringifies it)
+	bodyThrowTS = body{name: "throw_tostring", src: `g1 = 1; tick(1); throw { toString: function(){ g2 = 2; tick(2); for (i0 = 0; i0 < 2; i0++) { s0 = i0; } return "ts"; } };`, ticks: 2}
 	bodyThrowP  = body{name: "throw_prim", src: `g1 = 1; tick(1); throw 7; g2 = 2;`, ticks: 1, throws: excPrim}
 )
 
-var interruptBodies = []body{bodyAsg, bodyLoop, bodyForBlk, bodyForEmp, bodyWhile, bodyDo, bodyRec}
+var interruptBodies = []body{bodyAsg, bodyLoop, bodyForBlk, bodyForEmp, bodyWhile, bodyDo, bodyRec, bodyThrowTS}
 
 // prog is one generated program.
 type prog struct {
